@@ -55,6 +55,9 @@ ENTITIES = {
     "OPTS": ([], [("oe", COLOR, True, False), ("ob", BOOL, True, False), ("ol", LOGICAL, True, False),
                   ("orl", REAL, True, False), ("os", STR, True, False), ("obin", BIN, True, False),
                   ("onum", NUMBER, True, False), ("osel", NUM_OR_LABEL, True, False)]),
+    "UNIT_B": ([], [("dims", INT, False, False)]),
+    "SI_B": (["UNIT_B"], [("prefix", COLOR, False, False)]),
+    "LEN_B": (["UNIT_B"], [("lname", STR, False, False)]),
     "CARRIER": ([], [("load", ref("POINT", "DPOINT"), False, False), ("note", STR, False, False)]),
     "DCARRIER": (["CARRIER"], [("extra", INT, False, False)]),
 }
@@ -62,9 +65,10 @@ ENTITIES = {
 REDECLARED_IN = {("DCARRIER", "load"): ref("DPOINT")}
 ABSTRACT = {"BASE"}
 # attributes redeclared as DERIVE in a subtype: (entity, supertype attr) -> written as '*'
-DERIVED_IN = {("DPOINT", "tag")}
+DERIVED_IN = {("DPOINT", "tag"), ("SI_B", "dims")}
 # legal complex (external-mapping) combinations of the BASE family: ONEOF(lefty, righty) ANDOR extra
-COMPLEX_LEGAL = [["BASE", "EXTRA", "LEFTY"], ["BASE", "EXTRA", "RIGHTY"]]
+# and len_b ANDOR si_b under unit_b, where si_b derives unit_b.dims (the UNIT_B part is then written UNIT_B(*))
+COMPLEX_LEGAL = [["BASE", "EXTRA", "LEFTY"], ["BASE", "EXTRA", "RIGHTY"], ["LEN_B", "SI_B", "UNIT_B"]]
 
 
 class Schema:
@@ -282,7 +286,7 @@ class Gen:
                     r.shuffle(order)
                 parts, toks = [], ["("]
                 for e in order:
-                    ps, tk = self.record_values(e, ids_by_ent, own_only=True)
+                    ps, tk = self.record_values(e, ids_by_ent, own_only=True, ctx=combo)
                     parts.append((e, ps))
                     toks += [e, "("] + tk + [")"]
                 toks.append(")")
@@ -296,14 +300,15 @@ class Gen:
                 insts.append({"id": i, "complex": False, "parts": [(k, ps)], "toks": [k, "("] + tk + [")"]})
         return insts
 
-    def record_values(self, ent, ids_by_ent, own_only=False):
+    def record_values(self, ent, ids_by_ent, own_only=False, ctx=None):
+        """ctx: the parts of the externally mapped instance this record is a part of (one of them may derive an attribute)"""
         r = self.r
         attrs = [(ent, n, t, o, d) for (n, t, o, d) in self.S.ENTITIES[ent][1]] if own_only else self.S.all_attrs(ent)
         ps, toks = [], []
         for (owner, n, t, opt, der) in attrs:
             if toks:
                 toks.append(",")
-            if (ent, n) in self.S.DERIVED_IN:
+            if (ent, n) in self.S.DERIVED_IN or any((p_, n) in self.S.DERIVED_IN and self.S.isa(p_, ent) for p_ in (ctx or [])):
                 ps.append(("star",))
                 toks.append("*")
                 continue
